@@ -57,6 +57,13 @@ def explore(prog, run_path, on_path, max_paths=200000, timeout_ms=10000, max_ste
             kind, val = 'bound', e
         except RecursionError as e:
             kind, val = 'bound', BoundExceeded('python recursion limit')
+        if fixed and kind != 'infeasible' and kind != 'abort':
+            # decisions of a forced prefix are followed without a feasibility test: a path that ended before the next solver-decided branch
+            # may have an unsatisfiable path condition
+            try:
+                if M.solver.check() != z3.sat: kind = 'infeasible'
+            except Exception:
+                pass
         st.absorb(M)
         if kind == 'infeasible':
             st.infeasible += 1
